@@ -29,6 +29,19 @@ var Codecs = map[string]compress.Codec{
 }
 var CodecNames = []string{"none", "snappy", "gzip", "zstd", "brotli", "lz4"}
 
+// PlainWriterCfg varies only the page version and the codec; every size limit keeps its default.
+func PlainWriterCfg(r *rand.Rand) *WriterCfg {
+	c := &WriterCfg{WriteBuf: -1}
+	c.PageVersion = 1 + r.Intn(2)
+	c.Opts = append(c.Opts, parquet.DataPageVersion(c.PageVersion))
+	if r.Intn(2) == 0 {
+		c.Codec = CodecNames[r.Intn(len(CodecNames))]
+		c.Opts = append(c.Opts, parquet.Compression(Codecs[c.Codec]))
+	}
+	c.Desc = fmt.Sprintf("v%d codec=%s defaults", c.PageVersion, c.Codec)
+	return c
+}
+
 func RandWriterCfg(r *rand.Rand) *WriterCfg {
 	c := &WriterCfg{}
 	c.PageVersion = 1 + r.Intn(2)
